@@ -40,6 +40,10 @@ def required_classes(tier):
     return ["op:raising", "op:persist", "op:field", "op:field-adhoc", "op:curve", "op:pairing", "op:hash", "op:zcash", "op:bls", "op:secp", "history", "repeat-in-history", "adhoc-class-created-mid-history"]
 
 
+def cs_mod():
+    return importlib.import_module("py_ecc.bls.ciphersuites")
+
+
 # ------------------------------------------------------------------------------------------------ the pool
 PERSIST_SPEC = {}     # key -> (class, degree, value of x, value of y)
 PERSIST = {}          # key -> {"x": element, "y": element}; re-created at the start of every history
@@ -181,6 +185,11 @@ def build_pool(seed, quick):
             add("hash", "hash_to_G2[%d,%d]" % (i, j), 1, lambda m=m, d=d: (h2c.hash_to_G2, [m, d, HASHES["sha256"]]))
             add("hash", "hash_to_G1[%d,%d]" % (i, j), 1, lambda m=m, d=d: (h2c.hash_to_G1, [m, d, HASHES["sha256"]]))
         add("hash", "hkdf[%d]" % i, 1, lambda m=m: ((lambda s, k: hm.hkdf_expand(hm.hkdf_extract(s, k), b"info", 80)), [bytearray(b"salt"), m]))
+    long_m = rng.randbytes(400)
+    for j, m_ in enumerate((long_m, hashlib.sha256(long_m).digest(), hashlib.sha512(long_m).digest(), long_m[:32])):
+        add("hash", "hash_to_G2(related message %d)" % j, 1.5, lambda m_=m_: (h2c.hash_to_G2, [m_, dsts[1], HASHES["sha256"]]))
+        add("hash", "xmd(related message %d)" % j, 0.7, lambda m_=m_: (hm.expand_message_xmd, [m_, dsts[0], 64, HASHES["sha512"]]))
+        add("bls", "basic.Sign(related message %d)" % j, 1, lambda m_=m_: (cs_mod().G2Basic.Sign, [5, m_]))
     u2 = [rng.randrange(params.BLS_P) for _ in range(2)]
     swu = importlib.import_module("py_ecc.optimized_bls12_381.optimized_swu")
     ob = importlib.import_module("py_ecc.optimized_bls12_381")
